@@ -24,7 +24,10 @@ VARIABLE cfg
 KeV   == 100000
 EMass == 51099906
 
-Wins == {"none", "valid", "inverted", "beyond"}   \* beyond: min < max but the whole window lies above the available energy
+Wins == {"none", "valid", "inverted", "beyond", "lower", "upper"}
+  \* beyond: min < max but the whole window lies above the available energy
+  \* lower / upper: only that bound is given (the other one is left undefined and keeps the engine's default): still a window
+OpenWins == {"valid", "lower", "upper"}
 
 WindowModes == {4, 5, 6, 8, 10, 13, 14, 15, 16, 19}
 GaModes     == {21, 22, 23, 24}
@@ -74,7 +77,7 @@ PlumbingAccept(i, l, m) == Known(i) /\ LevelOK(i, l) /\ RefAccept(i, l, m) /\ Fo
 
 \* a window is admissible on a window-capable mode when min < max and it overlaps the spectrum (0, e0): a window entirely
 \* above the available energy selects nothing - an accepted request must yield events inside its window (C03)
-WindowOK(m, w) == w = "none" \/ (w = "valid" /\ m \in WindowModes)
+WindowOK(m, w) == w = "none" \/ (w \in OpenWins /\ m \in WindowModes)
 
 GaAccept(i, l, m, w) ==
   /\ m \in GaModes /\ i \in GaIsotopes /\ l = 0 /\ w = "none" /\ <<i, m>> \in GaData
@@ -98,7 +101,7 @@ Spec == Init /\ [][Next]_cfg
 
 FourBetaOnlyThree == LibraryAccept(cfg) /\ cfg.mode = 20 => cfg.iso \in FourBetaIsotopes /\ cfg.level = 0
 GaOnlyFourGroundStates == LibraryAccept(cfg) /\ cfg.mode \in GaModes => cfg.iso \in GaIsotopes /\ cfg.level = 0
-WindowOnlyOnWindowModes == LibraryAccept(cfg) /\ cfg.win # "none" => cfg.mode \in WindowModes /\ cfg.win = "valid"
+WindowOnlyOnWindowModes == LibraryAccept(cfg) /\ cfg.win # "none" => cfg.mode \in WindowModes /\ cfg.win \in OpenWins
 UnknownRefused == ~Known(cfg.iso) => ~LibraryAccept(cfg)
 LibraryWithinReference == LibraryAccept(cfg) /\ cfg.mode \in RefModes => RefAccept(cfg.iso, cfg.level, cfg.mode)
 PositiveEnergy == LibraryAccept(cfg) /\ cfg.mode \in RefModes => E0Full(cfg.iso, cfg.level, cfg.mode) - Lev(cfg.iso, cfg.level).e * KeV > 0
